@@ -73,9 +73,9 @@ inductive HSt where
   | returned (slots : List Res)
   /-- the helper raised exception `x` -/
   | raised (x : Exn)
-  /-- online: the caller was cancelled while `__aexit__` was waiting for the tasks: `__aexit__` raised `CancelledError` without
-  shutting the pool down — the tasks are still pending (open finding F5) -/
-  | abandoned
+  /-- online: the caller was cancelled while `__aexit__` was waiting for the tasks: `__aexit__` raised `CancelledError` after
+  shutting the pool down (since the repair 316170afa; before it the tasks were abandoned), without re-acquiring the caller's permit -/
+  | exitCancelled
   deriving DecidableEq, Repr
 
 /-- how the helper was entered -/
@@ -245,6 +245,15 @@ def bodyEnds (s : State) (f : Option Exn) : State :=
     let s1 := releaseOwn s
     if allDone s1.st then returnNow s1 else { s1 with helper := .exiting }
 
+/-- online: the wait inside `__aexit__` is interrupted by the cancellation of the caller (code since 316170afa) -/
+def exitCancel (s : State) : State :=
+  leave { withExc (cancelFirst s s.st.length) .cancelled with helper := .exitCancelled, pendingAtReturn := 0 }
+
+/-- the same before the repair 316170afa (finding F5): `__aexit__` had no clean-up around the wait — it raised and the tasks were
+neither cancelled nor awaited -/
+def exitCancelOld (s : State) : State :=
+  leave { s with helper := .exitCancelled, pendingAtReturn := nNotDone s.st }
+
 /-- one step.  `none` = not a behaviour (only a running task can finish; only a running body can end; only a caller that is still
 inside the helper can be cancelled there). -/
 def step (s : State) : Op → Option State
@@ -301,15 +310,17 @@ def step (s : State) : Op → Option State
       some (bodyEnds s (some .cancelled))
     | .online, .exiting =>
       -- `await self._done_event.wait()` inside `__aexit__` is resumed with `CancelledError`: `WithoutSemaphore.__aexit__` does not
-      -- re-acquire, `__aexit__` has no clean-up around the wait: it raises and the tasks are neither cancelled nor awaited
-      some (leave { s with helper := .abandoned, pendingAtReturn := nNotDone s.st })
+      -- re-acquire; `except BaseException: self._exception = exc; await self._shutdown(); raise` cancels every pending task and
+      -- waits for them before the `CancelledError` leaves `__aexit__`
+      some (exitCancel s)
     | _, .active =>
       -- `outer.cancel()` of `asyncio.gather` cancels every child; the helper is resumed with `CancelledError` when they are done
       -- (`cancel_on_error`'s `finally:` finds nothing left to cancel)
       some (raiseNow (cancelFirst s s.st.length) .cancelled 0 false)
     | _, _ => none
 
-/-! ### the code before the repairs b83b6cc09 (F1), 2f78d4573 (F2), 426463a22 (F3) — kept to document the repaired defects -/
+/-! ### the code before the repairs b83b6cc09 (F1), 2f78d4573 (F2), 426463a22 (F3), 316170afa (F5) — kept to document the repaired
+defects -/
 
 /-- F1: `bounded_gather` handed `bounded_gather2` a fresh `Semaphore(n)` nobody held a permit of -/
 def startOld (fl : Flavour) (en : Entry) (n : Nat) (outs : List Outcome) : State :=
@@ -337,6 +348,10 @@ def stepOld (s : State) : Op → Option State
     match s.flavour, s.helper, s.exc with
     | .online, .active, none => some (raiseNow (withExc (cancelFirst s s.st.length) (.code e)) (.code e) (nNotDone s.st) false)
     | _, _, _ => step s (.body (.raise e))
+  | .cancelCaller =>
+    match s.flavour, s.helper with
+    | .online, .exiting => some (exitCancelOld s)      -- F5
+    | _, _ => step s .cancelCaller
   | op => step s op
 
 def runFromWith (f : State → Op → Option State) : State → List Op → Option State
